@@ -43,7 +43,8 @@ pub fn assumptions(prop: &str) -> Vec<String> {
     match prop {
         "C01" => v.push("the digest and any single key-value fit one datagram (enforced when writes are generated); known finding KF-2 is classified by its signature (a member one side still sends and the other no longer advertises) and does not end the run".into()),
         "C02" => v.push("known finding KF-1 is classified by its taint signature and does not end the run".into()),
-        "C07" | "C09" => v.push("the node's own digest leaves at least 100 bytes of room".into()),
+        "C07" => v.push("the node's own digest leaves at least 100 bytes of room (part of the statement)".into()),
+        "C09" => v.push("the members the node knows still fit a digest in one datagram (part of the statement); the hostile generator inflates the victim's digest up to that limit".into()),
         "C10" | "C11" => v.push("a 1e-6 relative margin absorbs the incrementally summed floating-point mean".into()),
         _ => {}
     }
